@@ -427,15 +427,24 @@ impl CallStack {
     ) -> Result<(), StoryError> {
         self.threads.clear();
 
-        let j_threads = j_obj.get("threads").unwrap();
+        let j_threads = j_obj
+            .get("threads")
+            .and_then(|t| t.as_array())
+            .ok_or(StoryError::BadJson("loading callstack threads".to_owned()))?;
 
-        for j_thread_tok in j_threads.as_array().unwrap().iter() {
-            let j_thread_obj = j_thread_tok.as_object().unwrap();
+        for j_thread_tok in j_threads.iter() {
+            let j_thread_obj = j_thread_tok
+                .as_object()
+                .ok_or(StoryError::BadJson("Invalid thread object".to_owned()))?;
             let thread = Thread::from_json(main_content_container, j_thread_obj)?;
             self.threads.push(thread);
         }
 
-        self.thread_counter = j_obj.get("threadCounter").unwrap().as_i64().unwrap() as usize;
+        self.thread_counter = j_obj
+            .get("threadCounter")
+            .and_then(|c| c.as_i64())
+            .ok_or(StoryError::BadJson("Invalid thread counter".to_owned()))?
+            as usize;
         self.start_of_root = Pointer::start_of(main_content_container.clone()).clone();
 
         Ok(())
